@@ -36,12 +36,21 @@
 (* an instance shoots once per token it draws from ITS schedule.  Without  *)
 (* rps-per-instance there is one shared object by design.                  *)
 (*                                                                         *)
+(* Ammo objects: providers that recycle ammo (grpc/json, the generic       *)
+(* AmmoQueue / DecodeProvider) hand out objects of ONE pool; the instance  *)
+(* goroutine owns the object from Acquire until its ONE Release (deferred  *)
+(* in instance.Run), whether the ammo is shot or -- discard_overflow, the  *)
+(* instance >= 2 s behind its schedule -- discarded.                       *)
+(*   AAcquire(i,a) ADiscard(i) ARelease(i)                                 *)
+(*                                                                         *)
 (* Negative controls (all FALSE for the real design):                      *)
 (*   ShareGun    the factory hands out one gun object to every instance    *)
 (*   InPlace     rendered values are stored in the shared definition       *)
 (*   NoRandLock  the shared random source is entered without its lock      *)
 (*   ShareNested the factory's products wrap the SAME nested schedule      *)
 (*               objects (config decoded once for all products)            *)
+(*   DoubleRelease the discard path gives the ammo back itself AND the     *)
+(*               deferred Release runs: the object is in the pool twice    *)
 (*   ReportEarly the gun reports the sample BEFORE the part of the step    *)
 (*               that can still fail and, on failure, marks the sample and *)
 (*               reports it again (write after hand-over, double release)  *)
@@ -55,7 +64,9 @@ CONSTANTS Insts, Guns, Toks, MaxShots, KeepLog, ShareGun, InPlace, NoRandLock,
           Scheds,       \* schedule objects ({} = schedules not modelled)
           ProfileK,     \* tokens of the configured profile
           PerInstance,  \* rps-per-instance
-          ShareNested
+          ShareNested,
+          Ammos,        \* ammo objects of the provider's pool ({} = ammo objects not modelled)
+          DoubleRelease
 
 VARIABLES pend,     \* set of <<creator, gun>>: product of the factory not yet bound
           made,     \* guns the factory produced
@@ -80,11 +91,16 @@ VARIABLES pend,     \* set of <<creator, gun>>: product of the factory not yet b
           stale,    \* gun -> sample it already reported but still references (ReportEarly only)
           sched,    \* instance -> its schedule object (positive integers; 0 before newInstance)
           left,     \* schedule object -> tokens left
-          took      \* instance -> tokens it drew = shots it fired
+          took,     \* instance -> tokens it drew = shots it fired
+          apool,    \* ammo object -> how many times it sits in the provider's pool / queue
+          aholder,  \* ammo object -> instances that hold it (between Acquire and Release)
+          ia,       \* instance -> the ammo object it acquired ("nil" = none)
+          iph       \* instance -> idle | have (acquired, not shot yet) | shot
 
 svars == <<holders, inPool, sval, aggq, lines, hs, sph, stale>>
 schvars == <<sched, left, took>>
-vars == <<pend, made, owners, busy, nShoot, shooter, cur, used, defs, view, inCrit, sent, shots, svars, schvars>>
+avars == <<apool, aholder, ia, iph>>
+vars == <<pend, made, owners, busy, nShoot, shooter, cur, used, defs, view, inCrit, sent, shots, svars, schvars, avars>>
 
 Init ==
     /\ pend = {} /\ made = {}
@@ -109,6 +125,10 @@ Init ==
     /\ sched = [i \in Insts |-> 0]
     /\ left = [s \in Scheds |-> ProfileK]
     /\ took = [i \in Insts |-> 0]
+    /\ apool = [a \in Ammos |-> 1]
+    /\ aholder = [a \in Ammos |-> {}]
+    /\ ia = [i \in Insts |-> "nil"]
+    /\ iph = [i \in Insts |-> "idle"]
 
 \* the registered factory builds a NEW gun for every call (ShareGun: a singleton)
 NewGun(c, g) ==
@@ -116,7 +136,7 @@ NewGun(c, g) ==
     /\ \A p \in pend : p[1] # c
     /\ made' = made \cup {g}
     /\ pend' = pend \cup {<<c, g>>}
-    /\ UNCHANGED <<owners, busy, nShoot, shooter, cur, used, defs, view, inCrit, sent, shots, svars, schvars>>
+    /\ UNCHANGED <<owners, busy, nShoot, shooter, cur, used, defs, view, inCrit, sent, shots, svars, schvars, avars>>
 
 Bind(c, i, g) ==
     /\ <<c, g>> \in pend
@@ -131,11 +151,13 @@ Bind(c, i, g) ==
               /\ IF PerInstance /\ ~ShareNested THEN \A j \in Insts : sched[j] # s
                  ELSE s = CHOOSE x \in Scheds : \A y \in Scheds : x <= y
               /\ sched' = [sched EXCEPT ![i] = s]
-    /\ UNCHANGED <<made, busy, nShoot, shooter, cur, used, defs, view, inCrit, sent, shots, svars, left, took>>
+    /\ UNCHANGED <<made, busy, nShoot, shooter, cur, used, defs, view, inCrit, sent, shots, svars, left, took, avars>>
 
 \* the instance goroutine (sequential) hands an acquired ammo to ITS gun
 ShootBegin(i, g, gid, t) ==
     /\ i \in owners[g] /\ ~busy[i]
+    /\ Ammos = {} \/ iph[i] = "have"                 \* Acquire comes first
+    /\ iph' = iph
     \* one shot per token the instance draws from ITS schedule
     /\ IF Scheds = {} THEN UNCHANGED <<left, took>>
        ELSE /\ left[sched[i]] > 0
@@ -147,7 +169,7 @@ ShootBegin(i, g, gid, t) ==
     /\ cur' = [cur EXCEPT ![g] = t]
     /\ used' = IF t = "" THEN used ELSE used \cup {t}
     /\ shots' = shots + 1
-    /\ UNCHANGED <<pend, made, owners, defs, view, inCrit, sent, svars, sched>>
+    /\ UNCHANGED <<pend, made, owners, defs, view, inCrit, sent, svars, sched, apool, aholder, ia>>
 
 \* scenario step: the preprocessor draws this call's variables (source[next] under the iterator lock)
 Draw(g, t) ==
@@ -155,7 +177,7 @@ Draw(g, t) ==
     /\ Samples = {} \/ sph[g] = "acq"
     /\ cur' = [cur EXCEPT ![g] = t]
     /\ used' = used \cup {t}
-    /\ UNCHANGED <<pend, made, owners, busy, nShoot, shooter, defs, view, inCrit, sent, shots, svars, schvars>>
+    /\ UNCHANGED <<pend, made, owners, busy, nShoot, shooter, defs, view, inCrit, sent, shots, svars, schvars, avars>>
 
 \* rand / randString: the shared *rand.Rand
 RandEnter(g) ==
@@ -163,11 +185,11 @@ RandEnter(g) ==
     /\ nShoot[g] > 0 /\ g \notin inCrit
     /\ NoRandLock \/ inCrit = {}
     /\ inCrit' = inCrit \cup {g}
-    /\ UNCHANGED <<pend, made, owners, busy, nShoot, shooter, cur, used, defs, view, sent, shots, svars, schvars>>
+    /\ UNCHANGED <<pend, made, owners, busy, nShoot, shooter, cur, used, defs, view, sent, shots, svars, schvars, avars>>
 RandExit(g) ==
     /\ g \in inCrit
     /\ inCrit' = inCrit \ {g}
-    /\ UNCHANGED <<pend, made, owners, busy, nShoot, shooter, cur, used, defs, view, sent, shots, svars, schvars>>
+    /\ UNCHANGED <<pend, made, owners, busy, nShoot, shooter, cur, used, defs, view, sent, shots, svars, schvars, avars>>
 
 \* the call leaves gun g with token p in the payload and m in the templated header / metadata
 Send(g, p, m, nd, nv, scenario) ==
@@ -176,7 +198,7 @@ Send(g, p, m, nd, nv, scenario) ==
     /\ defs' = nd /\ view' = nv
     /\ cur' = [cur EXCEPT ![g] = IF scenario THEN "" ELSE @]      \* the next step draws again
     /\ sph' = IF Samples = {} THEN sph ELSE [sph EXCEPT ![g] = "sent"]
-    /\ UNCHANGED <<pend, made, owners, busy, nShoot, shooter, used, inCrit, shots, holders, inPool, sval, aggq, lines, hs, stale, schvars>>
+    /\ UNCHANGED <<pend, made, owners, busy, nShoot, shooter, used, inCrit, shots, holders, inPool, sval, aggq, lines, hs, stale, schvars, avars>>
 
 ShootEnd(i, g) ==
     /\ i \in owners[g] /\ busy[i] /\ nShoot[g] > 0 /\ g \notin inCrit
@@ -184,10 +206,42 @@ ShootEnd(i, g) ==
     /\ busy' = [busy EXCEPT ![i] = FALSE]
     /\ nShoot' = [nShoot EXCEPT ![g] = @ - 1]
     /\ cur' = [cur EXCEPT ![g] = "-"]
-    /\ UNCHANGED <<pend, made, owners, shooter, used, defs, view, inCrit, sent, shots, svars, schvars>>
+    /\ iph' = IF Ammos = {} THEN iph ELSE [iph EXCEPT ![i] = "shot"]
+    /\ UNCHANGED <<pend, made, owners, shooter, used, defs, view, inCrit, sent, shots, svars, schvars, apool, aholder, ia>>
+
+(****************************** ammo objects *******************************)
+ncore == <<pend, made, owners, busy, nShoot, shooter, cur, used, defs, view, inCrit, sent, shots, svars, schvars>>
+
+\* provider.Acquire: any object the provider has ready
+AAcquire(i, a) ==
+    /\ \E g \in Guns : i \in owners[g]
+    /\ iph[i] = "idle" /\ apool[a] > 0
+    /\ apool' = [apool EXCEPT ![a] = @ - 1]
+    /\ aholder' = [aholder EXCEPT ![a] = @ \cup {i}]
+    /\ ia' = [ia EXCEPT ![i] = a]
+    /\ iph' = [iph EXCEPT ![i] = "have"]
+    /\ UNCHANGED ncore
+
+GiveBack(i, n) ==
+    /\ apool' = [apool EXCEPT ![ia[i]] = @ + n]
+    /\ aholder' = [aholder EXCEPT ![ia[i]] = @ \ {i}]
+    /\ ia' = [ia EXCEPT ![i] = "nil"]
+    /\ iph' = [iph EXCEPT ![i] = "idle"]
+
+\* discard_overflow and the instance is too late: no shot; the deferred Release gives the ammo back (once)
+ADiscard(i) ==
+    /\ iph[i] = "have" /\ ~busy[i]
+    /\ GiveBack(i, IF DoubleRelease THEN 2 ELSE 1)
+    /\ UNCHANGED ncore
+
+\* the deferred Release after the shot
+ARelease(i) ==
+    /\ iph[i] = "shot" /\ ~busy[i]
+    /\ GiveBack(i, 1)
+    /\ UNCHANGED ncore
 
 (****************************** samples ************************************)
-core == <<pend, made, owners, busy, nShoot, shooter, cur, used, defs, view, inCrit, sent, shots, schvars>>
+core == <<pend, made, owners, busy, nShoot, shooter, cur, used, defs, view, inCrit, sent, shots, schvars, avars>>
 
 \* netsample.Acquire at the start of a step: any sample the pool has
 SAcquire(g, s) ==
@@ -249,6 +303,8 @@ Next ==
     \/ \E g \in Guns, s \in Samples : SAcquire(g, s)
     \/ \E g \in Guns : SMark(g) \/ SReport(g) \/ SFailAfter(g)
     \/ AggWrite
+    \/ \E i \in Insts, a \in Ammos : AAcquire(i, a)
+    \/ \E i \in Insts : ADiscard(i) \/ ARelease(i)
 
 Spec == Init /\ [][Next]_vars
 
@@ -273,6 +329,10 @@ SharedUnaltered == defs = "T"
 SchedOneOwner == PerInstance => \A i, j \in Insts : i # j /\ sched[i] # 0 => sched[i] # sched[j]
 \* ... so that every instance shoots the FULL profile: when its schedule is drained it drew all ProfileK tokens
 FullProfile == PerInstance => \A i \in Insts : (sched[i] # 0 /\ left[sched[i]] = 0) => took[i] = ProfileK
+\* an ammo object is owned by ONE instance from Acquire until Release ...
+AmmoOneHolder == \A a \in Ammos : Cardinality(aholder[a]) <= 1
+\* ... and given back exactly once: it is never in the pool twice, never in the pool while somebody holds it
+AmmoReleasedOnce == \A a \in Ammos : apool[a] <= 1 /\ (apool[a] = 1 => aholder[a] = {})
 \* a sample has ONE owner: the gun from Acquire until Report, the aggregator afterwards
 SampleOneHolder == \A s \in Samples : Cardinality(holders[s]) <= 1
 \* it is released into the pool once, and nobody holds a released sample
